@@ -228,6 +228,10 @@ func Run(t *testing.T, cfg Config, body func(s *Sim)) (res *Result) {
 				s.probes["kernel.goroutines_left_blocked_by_a_violating_run"]++
 			} else {
 				res.Harness = fmt.Sprintf("bubble panic: %v", r)
+				if os.Getenv("VERIF_STACKS") != "" {
+					buf := make([]byte, 4<<20)
+					os.Stderr.Write(buf[:runtime.Stack(buf, true)])
+				}
 			}
 			s.fill(res)
 		}
@@ -985,6 +989,18 @@ func (s *Sim) IsParked(task string) bool {
 		}
 	}
 	return false
+}
+
+// ParkedAt returns the label of the yield point the named task is parked at ("" if it is not parked).
+func (s *Sim) ParkedAt(task string) string {
+	s.mu.Lock()
+	defer s.mu.Unlock()
+	for _, p := range s.parkedL {
+		if p.task.name == task {
+			return p.label
+		}
+	}
+	return ""
 }
 
 // ParkedCount is the number of goroutines parked at yield points.
